@@ -8,6 +8,7 @@ package netpoll
 import (
 	"context"
 	"fmt"
+	"os"
 	"strings"
 	"syscall"
 	"testing"
@@ -41,6 +42,7 @@ type connScn struct {
 	Detach        bool      `json:"detach,omitempty"`
 	Observer      bool      `json:"observer,omitempty"`
 	LateSetReq    bool      `json:"late_set_request,omitempty"`
+	direct        string    // fixed schedule of a known finding's reproducer
 }
 
 func genConnScn(t *rapid.T, prop string, excl map[string]bool) connScn {
@@ -125,7 +127,9 @@ type connOutcome struct {
 // runConn executes the scenario under the scheduler and returns what was observed.
 func runConn(t *rapid.T, s connScn, replay []vs.Step) *connOutcome {
 	w := newE2World(t, 1, replay)
-	if vExclusions()["F13"] {
+	if s.direct == "F13" {
+		w.directF13()
+	} else if vExclusions()["F13"] {
 		w.excludeF13()
 	}
 	o := &connOutcome{w: w}
@@ -648,7 +652,30 @@ func connTest(t *testing.T, prop string) {
 		}
 		return
 	}
+	connKnown(prop, st)
 	rapid.Check(t, connProperty(prop, st))
+}
+
+// connKnown runs, once per check, the canonical reproducer of every finding listed as `known`
+// for this property and reports whether it still fails.
+func connKnown(prop string, st *vStats) {
+	if os.Getenv("VERIF_REGRESS") == "" {
+		return // only the first process of a check does this
+	}
+	if prop == "C09" && vExclusions()["F13"] {
+		s := connScn{Prop: "C09", Request: true, Handler: "all", HandlerYields: 2, Disconnect: true, NCallbacks: 2,
+			Peer: []peerAct{{Op: "write", N: 5}, {Op: "close"}}, direct: "F13"}
+		o := runConn(nil, s, nil)
+		sig, msg := judgeConn(s, o)
+		o.w.close()
+		st.eval()
+		st.class("known-reproducer")
+		if sig == "disconnect-after-callbacks" {
+			vKnown("C09", "F13", "OnDisconnect runs after the close callbacks when the handler task exits between onHup's closeBy(poller) and its onDisconnect call: "+msg)
+		} else if sig != "" {
+			vReport(vViolation{Property: prop, Slot: "known-reproducer:F13", Signature: sig, Message: msg, Replay: e2Replay{Scenario: s, Decisions: o.w.trace(), Events: o.w.names()}})
+		}
+	}
 }
 
 func TestVerifC05(t *testing.T) { connTest(t, "C05") }
